@@ -427,6 +427,11 @@ class Base:
             return struct.pack("d", arg)
         if isinstance(arg, tuple):
             return b"".join(b"<" + Base._arg_serialize(a) + b">" for a in arg)
+        if isinstance(arg, claripy.annotation.StridedIntervalAnnotation):
+            # hash() conflates -1 with -2 and integers that differ by a multiple of 2**61 - 1: serialize the fields themselves
+            return b"SIA" + Base._arg_serialize((arg.stride, arg.lower_bound, arg.upper_bound))
+        if isinstance(arg, claripy.annotation.RegionAnnotation):
+            return b"RA" + Base._arg_serialize((arg.region_id, arg.region_base_addr))
         if hasattr(arg, "__hash__"):
             return hash(arg).to_bytes(8, "little", signed=True)
 
